@@ -237,4 +237,169 @@ theorem xLawsAll : Laws xP Eq (fun x => x ≠ XRat.nan) (fun x => x = XRat.nan) 
   fit := xFitLaws
   trackEq := xTrackEqLaws
 
+/-! ### Concrete events -/
+
+deriving instance DecidableEq for AlphaG.Matching.Avalanche
+deriving instance DecidableEq for AlphaG.Hough.Point
+deriving instance DecidableEq for AlphaG.Helix.Params
+deriving instance DecidableEq for AlphaG.TrackInit.TrackP
+
+/-- A pulse of amplitude `a` at time bin 0 (constant response `-1` over 17 samples, 3 trailing zeros). -/
+def pulse (a : ℚ) : List XRat := List.replicate 17 (.fin (-a)) ++ List.replicate 3 (.fin 0)
+
+/-- One hit of amplitude 7 on wire 20 (pad column 1); the pads of rows 10, 11, 12 of that column see
+the amplitudes `f, m, l`. -/
+def mkEv (f m l : ℚ) : Matching.Event XRat where
+  wires := fun w => if w = 20 then some (pulse 7) else none
+  pads := fun c r => if c = 1 ∧ r = 10 then some (pulse f) else if c = 1 ∧ r = 11 then some (pulse m)
+    else if c = 1 ∧ r = 12 then some (pulse l) else none
+
+/-- `ln(2²/(1·1)) = 0` with the stand-in `ln x = x - 4`: σ² is a division by zero, `z` is NaN. -/
+def evNaN : Matching.Event XRat := mkEv 1 2 1
+def evOne : Matching.Event XRat := mkEv 1 3 1
+
+def aNaN : Matching.Avalanche XRat := ⟨0, 20, .nan, .fin 7, .fin 2⟩
+def aOne : Matching.Avalanche XRat := ⟨0, 20, .fin (-692 / 625), .fin 7, .fin 3⟩
+def pOne : Hough.Point XRat := ⟨.fin 2, .fin (1 / 8), .fin (-692 / 625)⟩
+
+set_option maxRecDepth 100000
+
+theorem evNaN_avalanches : stageAvalanches xP evNaN = .ok [aNaN] := by decide +kernel
+
+/-- **(a) is not vacuous**: an event on which `vertex()` panics, at `find(..).unwrap()`. -/
+theorem evNaN_panics : vertexOfSignals xP evNaN = .panic "drift:find" := by decide +kernel
+
+/-- … and the inventory names exactly this: the second disjunct, with the NaN `z` as witness. -/
+example : ∃ avs, stageAvalanches xP evNaN = .ok avs ∧ ∃ a ∈ avs, ZIncomparable xP a.z := by
+  rcases vertex_panic_sites xLawsAll evNaN _ evNaN_panics with ⟨h, _⟩ | ⟨_, h⟩ | ⟨h, _⟩ | h | h
+  · exact absurd h (by decide)
+  · exact h
+  · exact absurd h (by decide)
+  · obtain ⟨avs, pts, _, h1, h2, _⟩ := h
+    rw [evNaN_avalanches] at h1
+    cases h1
+    have : stagePoints xP [aNaN] = .panic "drift:find" := by decide +kernel
+    rw [this] at h2
+    cases h2
+  · obtain ⟨avs, pts, _, _, h1, h2, _⟩ := h
+    rw [evNaN_avalanches] at h1
+    cases h1
+    have : stagePoints xP [aNaN] = .panic "drift:find" := by decide +kernel
+    rw [this] at h2
+    cases h2
+
+example : ZIncomparable xP aNaN.z := by
+  refine ⟨?_, ?_⟩
+  · intro sl hsl
+    simp only [xP, xDriftTables, List.mem_singleton] at hsl
+    subst hsl
+    decide
+  · intro last hlast
+    simp only [xP, xDriftTables, List.getLast?_singleton, Option.some.injEq] at hlast
+    subst hlast
+    decide
+
+theorem evOne_avalanches : stageAvalanches xP evOne = .ok [aOne] := by decide +kernel
+theorem evOne_points : stagePoints xP [aOne] = .ok #[pOne] := by decide +kernel
+theorem evOne_clusters : stageClusters xP #[pOne] = .ok ⟨[], [0]⟩ := by decide +kernel
+theorem evOne_tracks : stageTracks xP #[pOne] [] = .ok #[] := rfl
+
+theorem fsum_zeros (a : List Nat) : TrackInit.fsum xT (a.map fun _ => XRat.fin 0) = .fin 0 := by
+  unfold TrackInit.fsum
+  suffices h : ∀ (l : List XRat) (acc : XRat), acc = .fin 0 → (∀ x ∈ l, x = .fin 0) →
+      l.foldl xT.h.add acc = .fin 0 by
+    exact h _ _ rfl (by simp)
+  intro l
+  induction l with
+  | nil => intro acc h _; simpa using h
+  | cons x l ih =>
+    intro acc hacc hl
+    simp only [List.foldl_cons]
+    apply ih
+    · rw [hacc, hl x (by simp)]
+      simp [xT, xH, lift2]
+    · intro y hy
+      exact hl y (by simp [hy])
+
+/-- **(b) is not vacuous**: every hypothesis of `vertex_total_of_no_nan` holds for `evOne` (one
+avalanche, one space point, no cluster). -/
+theorem evOne_total : ∃ v, vertexOfSignals xP evOne = .ok v := by
+  apply vertex_total_of_no_nan xLawsAll evOne
+  · intro r hr
+    have : Ranges.contiguousRanges (Matching.occupancy evOne) = [(20, 21)] := by decide +kernel
+    rw [this, List.mem_singleton] at hr
+    subst hr
+    unfold PivotFails
+    decide +kernel
+  · intro avs h a ha
+    rw [evOne_avalanches] at h
+    cases h
+    rw [List.mem_singleton] at ha
+    subst ha
+    rintro ⟨hall, _⟩
+    have := hall _ (List.mem_singleton.2 rfl)
+    revert this
+    decide +kernel
+  · intro avs pts ha hp
+    rw [evOne_avalanches] at ha
+    cases ha
+    rw [evOne_points] at hp
+    cases hp
+    intro p hp
+    simp only [List.mem_toArray, List.mem_singleton] at hp
+    subst hp
+    decide +kernel
+  · intro avs pts r ha hp hr c hc
+    rw [evOne_avalanches] at ha
+    cases ha
+    rw [evOne_points] at hp
+    cases hp
+    rw [evOne_clusters] at hr
+    cases hr
+    cases hc
+  · intro avs pts r ts ha hp hr ht
+    rw [evOne_avalanches] at ha
+    cases ha
+    rw [evOne_points] at hp
+    cases hp
+    rw [evOne_clusters] at hr
+    cases hr
+    rw [evOne_tracks] at ht
+    cases ht
+    refine ⟨?_, ?_, ?_, ?_⟩
+    · intro t ht; simp at ht
+    · intro t ht; simp at ht
+    · intro a b h
+      have h' := (xCmp_none _ _).1 h
+      have hz : ∀ l : List Nat,
+          TrackInit.fsum xP.fit.t (l.map fun i => ((#[] : Array (TrackP XRat)).getD i (dfltTrack xP)).q.r)
+            = .fin 0 := by
+        intro l
+        have : (fun i : Nat => ((#[] : Array (TrackP XRat)).getD i (dfltTrack xP)).q.r)
+            = fun _ => XRat.fin 0 := by
+          funext i
+          simp [Array.getD, dfltTrack, xP, xF, xT, xH]
+        rw [this]
+        exact fsum_zeros l
+      rcases h' with h' | h'
+      · rw [hz a] at h'; cases h'
+      · rw [hz b] at h'; cases h'
+    · intro x hx t ht; simp at ht
+
+example : vertexOfSignals xP evOne = .ok none := by decide +kernel
+
+/-! ### Stage 5 with a fitted vertex -/
+
+/-- Two tracks (those of `C14c`'s vertex-fit example); with the stand-in constants both pass the
+filters, form one beamline cluster, and the minimiser stops at its first convergence test. -/
+theorem twoTracks_vertex :
+    stageVertex xP #[trA, trB] = .ok (some (.fin 0, .fin 0, .fin (7 / 50))) := by decide +kernel
+
+/-- The stage-5 part of **(c) is not vacuous**: hypothesis and conclusion of `stageVertex_some`. -/
+example : ∃ vf, vertexFitOf xP #[trA, trB] = .ok (some vf) ∧
+    vf.position = (.fin 0, .fin 0, .fin (7 / 50)) ∧ 2 ≤ vf.cluster.length ∧
+    FittedVertex xP #[trA, trB] vf := by
+  obtain ⟨vf, h1, h2, _, h3, _, h4⟩ := stageVertex_some xFitLaws #[trA, trB] _ twoTracks_vertex
+  exact ⟨vf, h1, h2, h3, h4⟩
+
 end AlphaG.VertexPipeline.Examples
